@@ -182,16 +182,16 @@ func sortedFuncs(m map[*ssa.Function]bool) []*ssa.Function {
 // no-return inference
 
 var extNoReturn = map[string]bool{
-	"os.Exit":              true,
-	"log.Fatal":            true,
-	"log.Fatalf":           true,
-	"log.Fatalln":          true,
-	"(*log.Logger).Fatal":  true,
-	"(*log.Logger).Fatalf": true,
+	"os.Exit":               true,
+	"log.Fatal":             true,
+	"log.Fatalf":            true,
+	"log.Fatalln":           true,
+	"(*log.Logger).Fatal":   true,
+	"(*log.Logger).Fatalf":  true,
 	"(*log.Logger).Fatalln": true,
-	"runtime.Goexit":       true,
-	"log.Panic":            true,
-	"log.Panicf":           true,
+	"runtime.Goexit":        true,
+	"log.Panic":             true,
+	"log.Panicf":            true,
 }
 
 // NoReturn reports whether fn never returns normally: every path ends in a
